@@ -131,7 +131,7 @@ def iterblocks(self, M, bitlen=None):
     lp = 0
     if l == 0 or rb > 0:
         lp = lb - rb
-        M += b'\\0'*lp
+        M = M + b'\\0'*lp
         nb += 1
     P = BytesIO(M)
     Ts = self.Ts
